@@ -85,6 +85,7 @@ struct Inputs {
     embedded_pairing_lqibe_ciphertext_t lqct[2];
 };
 static Inputs IN;
+static Inputs IN0;          /* pristine copy: every operation takes its inputs as const, so IN must never change */
 
 struct Out { uint8_t bytes[1024]; };
 
@@ -161,6 +162,14 @@ static NOINSTR void build_inputs() {
         uint8_t sym[32];
         embedded_pairing_lqibe_encrypt(&IN.lqct[i], sym, sizeof(sym), &IN.lqparams, &IN.lqid[i], hash_fill_impl, det_random);
     }
+    memcpy(&IN0, &IN, sizeof(IN));
+}
+
+/* const-input monitor: true if some operation wrote to the shared inputs (restores them) */
+static NOINSTR bool inputs_modified() {
+    if (memcmp(&IN, &IN0, sizeof(IN)) == 0) return false;
+    memcpy(&IN, &IN0, sizeof(IN));
+    return true;
 }
 
 /* --------------------------------------------------------------------------------------------- operation menu */
@@ -215,6 +224,8 @@ OP(wkdibe_qualifykey) {
 }
 OP(wkdibe_sign) { trs = 0x6712345ull; embedded_pairing_wkdibe_sign((embedded_pairing_wkdibe_signature_t*) o.bytes, &IN.sparams, &IN.skey, &IN.al, &IN.sigmsg, thread_random); }
 OP(wkdibe_verify) { o.bytes[0] = embedded_pairing_wkdibe_verify(&IN.sparams, &IN.al, &IN.sig, &IN.sigmsg) ? 1 : 0; }
+OP(wkdibe_params_marshal) { embedded_pairing_wkdibe_params_marshal(o.bytes, &IN.sparams, true); }
+OP(wkdibe_precompute) { embedded_pairing_wkdibe_precompute((embedded_pairing_wkdibe_precomputed_t*) o.bytes, &IN.sparams, &IN.al); }
 OP(lqibe_keygen) { embedded_pairing_lqibe_keygen((embedded_pairing_lqibe_secretkey_t*) o.bytes, &IN.lqmsk, &IN.lqid[0]); }
 /* two identities: thread-local choice by the output address parity would be fragile; instead each op has a fixed identity */
 OP(lqibe_encrypt0) { trs = 0x7123456ull; embedded_pairing_lqibe_encrypt((embedded_pairing_lqibe_ciphertext_t*) (o.bytes + 64), o.bytes, 32, &IN.lqparams, &IN.lqid[0], hash_fill_cb, thread_random); }
@@ -232,7 +243,7 @@ static OpEntry OPS[] = {
     {"g2_encode_decode", op_g2_encode_decode}, {"hash_to_g1", op_hash_to_g1}, {"hash_to_g2", op_hash_to_g2}, {"hash_to_id", op_hash_to_id}, {"zp_from_hash", op_zp_from_hash},
     {"pairing", op_pairing}, {"final_exponentiation", op_final_exponentiation}, {"g1_random", op_g1_random}, {"wkdibe_encrypt", op_wkdibe_encrypt}, {"wkdibe_decrypt", op_wkdibe_decrypt},
     {"g2_random", op_g2_random}, {"gt_random", op_gt_random}, {"prepared_pairing", op_prepared_pairing}, {"g2_prepare", op_g2_prepare}, {"wkdibe_keygen", op_wkdibe_keygen},
-    {"wkdibe_qualifykey", op_wkdibe_qualifykey}, {"wkdibe_sign", op_wkdibe_sign}, {"wkdibe_verify", op_wkdibe_verify}, {"lqibe_keygen", op_lqibe_keygen},
+    {"wkdibe_qualifykey", op_wkdibe_qualifykey}, {"wkdibe_sign", op_wkdibe_sign}, {"wkdibe_verify", op_wkdibe_verify}, {"wkdibe_params_marshal", op_wkdibe_params_marshal}, {"wkdibe_precompute", op_wkdibe_precompute}, {"lqibe_keygen", op_lqibe_keygen},
     {"lqibe_encrypt0", op_lqibe_encrypt0}, {"lqibe_encrypt1", op_lqibe_encrypt1}, {"lqibe_decrypt0", op_lqibe_decrypt0}, {"lqibe_decrypt1", op_lqibe_decrypt1},
 };
 static const int NOPS = sizeof(OPS) / sizeof(OPS[0]);
@@ -348,6 +359,16 @@ static Out expected[MAXT];
 
 static NOINSTR bool check(const int* ops, int first, const std::vector<int>& ch, Out* outs, bool report) {
     bool ok = true;
+    if (inputs_modified()) {
+        ok = false;
+        if (report && n_fail < 5) {
+            printf("FAIL {\"ops\":[");
+            for (int i = 0; i < nthreads; i++) printf("%s\"%s\"", i ? "," : "", OPS[ops[i]].name);
+            printf("],\"first\":%d,\"thread\":-1,\"const_inputs_modified\":true,\"choices\":\"", first);
+            for (size_t i = 0; i < ch.size(); i++) printf("%s%d", i ? "," : "", ch[i]);
+            printf("\"}\n");
+        }
+    }
     for (int t = 0; t < nthreads; t++) {
         if (memcmp(&outs[t], &expected[t], sizeof(Out)) != 0) {
             ok = false;
@@ -400,7 +421,11 @@ int main(int argc, char** argv) {
         /* free-running pass: all menu entries on 16 threads at once, several rounds, results compared with sequential */
         int rounds = argc > 2 ? atoi(argv[2]) : 2;
         static Out seq[96];
-        for (int i = 0; i < NOPS; i++) { memset(&seq[i], 0xCD, sizeof(Out)); OPS[i].fn(seq[i]); }
+        int seqbad = 0;
+        for (int i = 0; i < NOPS; i++) {
+            memset(&seq[i], 0xCD, sizeof(Out)); OPS[i].fn(seq[i]);
+            if (inputs_modified()) { seqbad++; printf("FAIL {\"free_running\":\"%s\",\"const_inputs_modified\":true}\n", OPS[i].name); }
+        }
         struct FA { int start; int rounds; int bad; };
         auto body = [](void* p) -> void* {
             FA* a = (FA*) p;
@@ -415,8 +440,9 @@ int main(int argc, char** argv) {
         };
         pthread_t th[16]; FA fa[16];
         for (int t = 0; t < 16; t++) { fa[t] = {t * 2, rounds, 0}; pthread_create(&th[t], nullptr, body, &fa[t]); }
-        int bad = 0;
+        int bad = seqbad;
         for (int t = 0; t < 16; t++) { pthread_join(th[t], nullptr); bad += fa[t].bad; }
+        if (inputs_modified()) { bad++; printf("FAIL {\"free_running\":\"*\",\"const_inputs_modified\":true}\n"); }
         printf("STAT {\"mode\":\"free\",\"threads\":16,\"ops\":%d,\"rounds\":%d,\"mismatches\":%d}\n", NOPS, rounds, bad);
         return bad ? 1 : 0;
     }
@@ -446,13 +472,25 @@ int main(int argc, char** argv) {
         }
         nthreads = 2;
         if (argc >= 7) { ops[2] = find_op(argv[6]); nthreads = 3; }
-        for (int t = 0; t < nthreads; t++) { memset(&expected[t], 0xCD, sizeof(Out)); OPS[ops[t]].fn(expected[t]); }
+        for (int t = 0; t < nthreads; t++) {
+            memset(&expected[t], 0xCD, sizeof(Out)); OPS[ops[t]].fn(expected[t]);
+            if (inputs_modified()) {
+                printf("FAIL {\"ops\":[\"%s\",\"%s\"],\"first\":0,\"thread\":%d,\"const_inputs_modified\":true,\"sequential\":true,\"choices\":\"\"}\n", OPS[ops[0]].name, OPS[ops[1]].name, t);
+                n_fail++;
+            }
+        }
+        if (n_fail) {
+            /* an operation writes to its const inputs even when run alone: that is the finding; schedules would only repeat it */
+            printf("STAT {\"mode\":\"explore\",\"ops\":[\"%s\",\"%s\"],\"bound\":%d,\"depth\":\"%s\",\"executions\":%d,\"preempting\":0,\"max_points\":0,\"total_points\":0,\"failures\":%llu}\n",
+                   OPS[ops[0]].name, OPS[ops[1]].name, bound, argv[5], nthreads, n_fail);
+            return 1;
+        }
         /* determinism of replay: the same schedule twice gives the same trace */
         {
             Out o1[MAXT], o2[MAXT];
             std::vector<int> ch = {1};
-            execute(ops, 0, ch, o1); std::vector<Point> t1 = trace;
-            execute(ops, 0, ch, o2); std::vector<Point> t2 = trace;
+            execute(ops, 0, ch, o1); std::vector<Point> t1 = trace; inputs_modified();
+            execute(ops, 0, ch, o2); std::vector<Point> t2 = trace; inputs_modified();
             bool same = t1.size() == t2.size();
             for (size_t i = 0; same && i < t1.size(); i++) same = t1[i].thread == t2[i].thread && t1[i].enabled_mask == t2[i].enabled_mask;
             for (int t = 0; same && t < nthreads; t++) same = !memcmp(&o1[t], &o2[t], sizeof(Out));
@@ -475,7 +513,9 @@ int main(int argc, char** argv) {
         std::vector<int> ch;
         for (char* tok = strtok(argv[6], ","); tok; tok = strtok(nullptr, ",")) ch.push_back(atoi(tok));
         nthreads = 2;
-        for (int t = 0; t < nthreads; t++) { memset(&expected[t], 0xCD, sizeof(Out)); OPS[ops[t]].fn(expected[t]); }
+        bool seqmod = false;
+        for (int t = 0; t < nthreads; t++) { memset(&expected[t], 0xCD, sizeof(Out)); OPS[ops[t]].fn(expected[t]); seqmod = inputs_modified() || seqmod; }
+        if (seqmod) { printf("STAT {\"mode\":\"replay\",\"points\":0,\"ok\":0,\"const_inputs_modified\":true}\n"); return 1; }
         Out outs[MAXT];
         execute(ops, first, ch, outs);
         bool ok = check(ops, first, ch, outs, true);
